@@ -181,6 +181,7 @@ class Model {
     Spec s;
     s.slot = o.at(CA_SLOT); s.obj = o.at(CA_OBJ); s.func = o.at(CA_FUNC); s.term = o.at(CA_TERM);
     s.nseq = o.at(CA_NSEQ); s.seq[0] = o.at(CA_SEQ0); s.seq[1] = o.at(CA_SEQ1);
+    s.seq[2] = (0 + 1 + 2) - s.seq[0] - s.seq[1];   // nseq == 3 (NSEQ is 3): the remaining sequence, listed last
     s.lo = o.at(CA_LO); s.hi = o.at(CA_HI) < 0 ? INF : o.at(CA_HI);
     s.m[0] = MSpec{o.at(CA_M0K), o.at(CA_M0V)}; s.m[1] = MSpec{o.at(CA_M1K), o.at(CA_M1V)};
     s.with[0] = o.at(CA_W0); s.with[1] = o.at(CA_W1);
@@ -197,7 +198,8 @@ class Model {
         Spec s = spec_of(o);
         if (slot_eid[s.slot] >= 0 || !obj[s.obj].alive) return false;
         for (int j = 0; j < s.nseq; ++j) if (!seq[s.seq[j]].alive) return false;
-        if (s.nseq == 2 && s.seq[0] == s.seq[1]) return false;
+        if (s.nseq >= 2 && s.seq[0] == s.seq[1]) return false;
+        if (s.nseq > 2 && s.lit >= 0) return false;
         if (s.nseq > 0 && s.hi == 0 && s.lit >= 0) return false;  // compile-time forbids cannot be sequenced; RT_TIMES(0) + IN_SEQUENCE can
         if (s.lit >= 0) for (int q = NSLOT; q < NALL; ++q) if (slot_eid[q] >= 0 && E.at(slot_eid[q]).s.lit == s.lit) return false;  // one location = one live expectation
         if ((s.lit >= 0) != (s.slot >= NSLOT)) return false;
